@@ -313,6 +313,10 @@ def _(m, callee, args):
     if t and re.fullmatch(r'(usize|u8|u16|u32|u64|u128|isize|i8|i16|i32|i64|i128)', t.group(1)):
         if is_sym(v):
             raise Unsupported('Display of a symbolic integer')
+        if t.group(1).startswith('i'):
+            w_ = 64 if t.group(1) == 'isize' else int(t.group(1)[1:])
+            if v >= 1 << (w_ - 1):
+                v -= 1 << w_      # integers are kept modulo 2^w
         return ('fmtarg', RStr([ord(c) for c in str(v)]), 'num', '')
     elif t and t.group(1) == 'bool':
         if is_sym(v):
